@@ -9,6 +9,12 @@ variable {K : Type} [Field K] [LinearOrder K] [IsStrictOrderedRing K] [FloorRing
 
 /-! ### binding the arguments -/
 
+theorem get_cons (k : String) (b : V K) (s : Store K) (y : String) :
+    Store.get ((k, b) :: s) y = if y = k then some b else Store.get s y := by
+  unfold Store.get; exact lookup_cons_if k b s y
+
+theorem get_nil (y : String) : Store.get ([] : Store K) y = none := rfl
+
 theorem storeRep_cons {g : TEnv} {py c : Store K} {x : String} {t : T} {v vc : V K}
     (hs : StoreRep g py c) (hl : g.lookup x = some t) (hr : rep t v = some vc) :
     StoreRep g ((x, v) :: py) ((x, vc) :: c) := by
